@@ -58,7 +58,9 @@ class C16(StdCheck):
             "operands, redundant parentheses, duplicates, several assign lines) with single near-miss mutations (!=, constant or number "
             "instead of literal, extra conjunct, host<->service, dropped/duplicated comparison, && for ||, negation), otherwise random boolean "
             "expressions with opaque atoms; ignore where in ~25 %; each configuration loaded as written and wrapped, Concurrency 1 (and 16 on "
-            "every 3rd case; always in thorough), plus 0-4 API queries (fast vs wrapped) with filter_vars. evaluations = (rule, target) filter "
+            "every 3rd case; always in thorough), plus 0-4 API queries (fast vs wrapped) with filter_vars, ~8 % of them with a key that evaluation binds itself (obj, the type "
+            "name, every navigation field of the type as read from the type reflection at run time and compared with the model's apiBound; "
+            "inventory objects have check_period/event_command/command_endpoint set on some). evaluations = (rule, target) filter "
             "evaluations of the model's plain semantics + API per-object evaluations; a case is non-trivial when an apply rule created an "
             "object or the API fast path returned an object; distinct by hash of the case (counted by the Lean driver)")
 
@@ -66,7 +68,8 @@ class C16(StdCheck):
         res = super().correspondence(tier, seed, harness, driver)
         st = res.stats
         need = {"rules_targeted": 100, "rules_regular": 100, "created_by_index": 50, "api_recognised": 20,
-                "rules_for": 50, "rules_ignore": 20, "cascade_cases": 20, "rules_use": 50}
+                "rules_for": 50, "rules_ignore": 20, "cascade_cases": 20, "rules_use": 50,
+                "bound_checked": 100, "api_collide_nav": 50, "api_collide_recognised": 50}
         short = {k: st.get(k, 0) for k, v in need.items() if st.get(k, 0) < v}
         if short:
             raise core.TieBroken("harness:c16:coverage", f"generator no longer reaches: {short}")
